@@ -167,6 +167,18 @@ def check_statement(ctx, conn, sa, raw, data, datakey):
     contexts = table_contexts(ast)
     hints = parser.hints
     ctx.count('hints_recorded', len(hints))
+    if len(hints) < len(contexts):
+        # the parser generated fewer tables than the statement reads: an occurrence without a generation of its own is served
+        # by the table generated earlier for the same name - judge it with those hints
+        pending, latest, mapped = list(hints), {}, []
+        for context in contexts:
+            if pending and pending[0][0].name.upper() == context[0].upper():
+                latest[context[0].upper()] = pending.pop(0)
+            if context[0].upper() in latest:
+                mapped.append(latest[context[0].upper()])
+        if not pending and len(mapped) == len(contexts):
+            hints = mapped
+            ctx.count('table_generations_reused')
     if len(hints) != len(contexts) or [h[0].name.upper() for h in hints] != [c[0].upper() for c in contexts]:
         ctx.inconclusive(f'table occurrence order mismatch: parser {[h[0].name for h in hints]} vs walk {[c[0] for c in contexts]}')
         return
@@ -332,6 +344,15 @@ def directed():
                 orderby=((g.agg('max', g.column('A', 'z')), 'desc'), (g.column('A', 'x'), 'asc'))),
         g.query(g.join(a, b, 'inner', eq), select=(g.column('A', 'x'), g.alias(g.agg('count', g.column('A', 'y')), 'n')),
                 groupby=(g.column('A', 'x'),), orderby=((g.agg('sum', g.column('B', 'w')), 'asc'), (g.column('A', 'x'), 'asc'))),
+        # the same table read twice with the same columns and different row filters (set operands, nested statement)
+        ('set', g.query(a, select=(g.column('A', 'x'),), where=g.cmp('>', g.column('A', 'y'), g.lit(0))),
+         g.query(a, select=(g.column('A', 'x'),), where=g.cmp('<=', g.column('A', 'y'), g.lit(0))), 'union'),
+        ('set', g.query(b, select=(g.column('B', 'w'),), where=g.cmp('>', g.column('B', 'x'), g.lit(1))),
+         g.query(b, select=(g.column('B', 'w'),), where=g.cmp('<', g.column('B', 'x'), g.lit(1))), 'union'),
+        g.query(g.join(a, g.reference(g.query(a, select=(g.column('A', 'x'), g.column('A', 'y')),
+                                              where=g.cmp('<=', g.column('A', 'y'), g.lit(0))), 'nq'),
+                       'inner', g.cmp('==', g.column('A', 'x'), g.column('nq', 'x'))),
+                select=(g.column('A', 'x'), g.column('nq', 'y')), where=g.cmp('>', g.column('A', 'y'), g.lit(0))),
     ] + nested_outer_joins() + referenced_joins()
 
 
